@@ -1536,7 +1536,8 @@ def run_impl(case, watchdog=None, keep_raw=True):
             _REC = None
     stderr_text = err.getvalue()
     obs = {'trace': canonical_trace(raw, runner), 'exit': code, 'err': classify_err(exc, stderr_text),
-           'stderr': stderr_text[-600:], 'ms': round((time.time() - t0) * 1000, 2)}
+           'stderr': stderr_text[-600:], 'ms': round((time.time() - t0) * 1000, 2),
+           'stdout_end': out.getvalue()[-600:]}       # (added, C19 r6) the process' stdout when the command returned
     if exc is not None and not isinstance(exc, (SchedDeadlock, _Watchdog)):
         obs['exc'] = ''.join(traceback.format_exception_only(type(exc), exc))[-300:]
     for e in raw:
